@@ -401,8 +401,52 @@ func Build(c Config) *Stack {
 			addrs[i] = multiswarm.Addr{Scheme: "m", Addr: s.LocalAddr()}
 		}
 		st.Nodes, st.HasAsk = WrapSwarms(sw, addrs), true
+	case "multi-failclose":
+		// like "multi", but transport "a" (first in key order) reports an error from Close after
+		// closing: a fault at Close time must not leave the other transport or the hubs open
+		ra := memswarm.NewRealm(memOpts(c)...)
+		rb := memswarm.NewRealm(memOpts(c)...)
+		sw := make([]p2p.Swarm[multiswarm.Addr], n)
+		addrs := make([]multiswarm.Addr, n)
+		for i := range sw {
+			a, b := ra.NewSwarm(), rb.NewSwarm()
+			sw[i] = multiswarm.New(map[string]multiswarm.DynSwarm{"a": multiswarm.WrapSwarm[memswarm.Addr](failCloseSwarm{a}), "b": multiswarm.WrapSwarm[memswarm.Addr](b)})
+			addrs[i] = multiswarm.Addr{Scheme: "b", Addr: b.LocalAddr()}
+		}
+		st.Nodes = WrapSwarms(sw, addrs)
+	case "multi-ask-failclose":
+		ra := memswarm.NewSecureRealm[string](memOpts(c)...)
+		rb := memswarm.NewSecureRealm[string](memOpts(c)...)
+		sw := make([]p2p.Swarm[multiswarm.Addr], n)
+		addrs := make([]multiswarm.Addr, n)
+		for i := range sw {
+			a, b := ra.NewSwarm(fmt.Sprintf("key%d", i)), rb.NewSwarm(fmt.Sprintf("key%d", i))
+			sw[i] = multiswarm.NewSecureAsk[string](map[string]multiswarm.DynSecureAskSwarm[string]{
+				"a": multiswarm.WrapSecureAskSwarm[memswarm.Addr, string](failCloseAskSwarm{a}),
+				"b": multiswarm.WrapSecureAskSwarm[memswarm.Addr, string](b)})
+			addrs[i] = multiswarm.Addr{Scheme: "b", Addr: b.LocalAddr()}
+		}
+		st.Nodes, st.HasAsk = WrapSwarms(sw, addrs), true
 	default:
 		panic("unknown stack kind " + c.Kind)
 	}
 	return st
+}
+
+// failCloseSwarm closes its transport and then reports an error (a socket that was already
+// shut down underneath the swarm behaves like this).
+type failCloseSwarm struct{ p2p.Swarm[memswarm.Addr] }
+
+func (f failCloseSwarm) Close() error {
+	f.Swarm.Close()
+	return fmt.Errorf("transport reported an error while closing")
+}
+
+type failCloseAskSwarm struct {
+	p2p.SecureAskSwarm[memswarm.Addr, string]
+}
+
+func (f failCloseAskSwarm) Close() error {
+	f.SecureAskSwarm.Close()
+	return fmt.Errorf("transport reported an error while closing")
 }
